@@ -3,7 +3,6 @@ package c44_test
 // C44: management-server fallback follows gRFC A71 (1..3 servers).
 
 import (
-	"os"
 	"sort"
 	"testing"
 
@@ -53,7 +52,7 @@ func rank(x int, set ...int) int {
 
 // genShared: unit "shared" - always 2..3 servers and 1..3 named authorities
 // whose server lists overlap with each other and with the top-level list.
-// 70 % of the cases open with a skeleton that makes two authorities meet on one
+// 60 % of the cases open with a skeleton that makes two authorities meet on one
 // server at different priority positions: authority X = [p, f, ...] and
 // authority Y = [f, ...] both get a watch, p refuses its stream before any
 // response (X falls back onto the channel Y already holds), and - after a few
@@ -87,7 +86,7 @@ func genShared(rt *rapid.T) xdsrig.Plan {
 		}
 		return p.Auths[a-1]
 	}
-	if rapid.IntRange(0, 9).Draw(rt, "skeleton") >= 7 {
+	if rapid.IntRange(0, 9).Draw(rt, "skeleton") >= 6 {
 		// free start: one or two watches
 		pre := []xdsrig.Op{{K: "watch", T: rapid.IntRange(0, 1).Draw(rt, "pt"), N: xdsrig.GenName(rt), A: rapid.IntRange(0, na-1).Draw(rt, "pa")}}
 		if rapid.Bool().Draw(rt, "second_authority") {
@@ -185,9 +184,6 @@ func runWith(t *testing.T, p xdsrig.Plan, shared bool) vk.Result {
 	sort.Strings(res.Classes)
 	if rep.OffAspect != "" {
 		res.Classes = append(res.Classes, "stopped_offaspect_divergence")
-		if os.Getenv("VERIF_C44_DEBUG_OFFASPECT") != "" {
-			return vk.Bad("DEBUG offaspect: %s", rep.OffAspect)
-		}
 		return res
 	}
 	res.NonTrivial = rep.Stats.Fallbacks >= 1 && rep.Stats.Reverts >= 1
@@ -218,7 +214,7 @@ func TestVerifC44Fallback(t *testing.T) {
 func TestVerifC44Shared(t *testing.T) {
 	vk.Check(t, vk.Unit[xdsrig.Plan]{
 		ID: "C44", Name: "shared",
-		Rule: "2..3 management servers, the top-level authority plus 1..3 named authorities (xdstp names) whose server lists are ordered subsets / permutations of the pool, so one reference-counted channel is commonly the primary of one authority and a fallback of another; 70% of the cases open with: authority X=[p,f,..] and Y=[f,..] both watched, p refuses its stream (X falls back onto the channel Y holds), free ops, p comes up and answers; otherwise and afterwards free ops as in unit fallback. Same A71 model oracle: per server the requested names must be the union over the authorities currently using it, a channel is closed iff no authority holds it. non-trivial = some authority reverted to a higher-priority server while another authority still held a lower-priority server it left (its names must disappear there, the channel must stay open)",
+		Rule: "2..3 management servers, the top-level authority plus 1..3 named authorities (xdstp names) whose server lists are ordered subsets / permutations of the pool, so one reference-counted channel is commonly the primary of one authority and a fallback of another; 60% of the cases open with: authority X=[p,f,..] and Y=[f,..] both watched, p refuses its stream (X falls back onto the channel Y holds), free ops, p comes up and answers; otherwise and afterwards free ops as in unit fallback. Same A71 model oracle: per server the requested names must be the union over the authorities currently using it, a channel is closed iff no authority holds it. non-trivial = some authority reverted to a higher-priority server while another authority still held a lower-priority server it left (its names must disappear there, the channel must stay open)",
 		Gen:  genShared, Run: runShared,
 	})
 }
